@@ -975,7 +975,10 @@ impl Storage {
         let mut batch = self.batch();
 
         for ss in scripts {
-            if ss.block_number >= to_number {
+            // The history of every script is scanned, whatever block number is recorded for it: `filter_block`
+            // writes the index entries of a block before the scripts' block numbers are raised, so after a crash
+            // in between there are entries above the recorded number, and they have to be rolled back as well.
+            {
                 let script = ss.script;
                 let mut key_prefix = vec![match ss.script_type {
                     ScriptType::Lock => KeyPrefix::TxLockScript as u8,
@@ -1102,7 +1105,7 @@ impl Storage {
                     });
 
                 // update script filter block number
-                {
+                if ss.block_number >= to_number {
                     let mut key = Key::Meta(FILTER_SCRIPTS_KEY).into_vec();
                     key.extend_from_slice(script.as_slice());
                     key.extend_from_slice(match ss.script_type {
